@@ -162,6 +162,22 @@ var errorEndings = []func(p *pg, g string){
 		p.w("def %s_r(n): return %s_r2(n)\ndef %s_r2(n): return 1 // (n - n)\n%s_r(3)", g, g, g, g)
 	},
 	func(p *pg, g string) { p.w("%s_x = undefined_global_nam", g) }, // static error with spell check
+	func(p *pg, g string) { // several different keyword names supplied twice: which one does the message quote?
+		p.w("def %s_build():\n    return dict(alpha_keyword_one = 1, beta_keyword_two = 2, gamma_keyword_three = 3, **{\"gamma_keyword_three\": 4, \"beta_keyword_two\": 5, \"alpha_keyword_one\": 6})\n%s_build()", g, g)
+	},
+	func(p *pg, g string) {
+		p.w("%s_d = {}\ndef %s_upd():\n    %s_d.update([(\"pair_key_long_name\", 1)], zeta_keyword = 1, eta_keyword = 2, theta_keyword = 3, **{\"theta_keyword\": 4, \"zeta_keyword\": 5, \"eta_keyword\": 6})\n%s_upd()", g, g, g, g)
+	},
+	func(p *pg, g string) {
+		p.w("def %s_callee(first_parameter = 0, second_parameter = 0, third_parameter = 0): return 0\ndef %s_caller():\n    return %s_callee(first_parameter = 1, second_parameter = 2, **{\"second_parameter\": 3, \"first_parameter\": 4})\n%s_caller()", g, g, g, g)
+	},
+	func(p *pg, g string) { // a long function failing near its end: its line table is decoded lazily, on the first position lookup
+		var b strings.Builder
+		for i := 0; i < 300; i++ {
+			fmt.Fprintf(&b, "    x = x + %d\n", i%7)
+		}
+		p.w("def %s_long(d):\n    x = 0\n%s    return d[\"missing_key_at_the_end_of_a_long_function\"] + x\ndef %s_mid(d): return %s_long(d)\n%s_mid({\"present_key_long_name\": 1})", g, b.String(), g, g, g)
+	},
 	func(p *pg, g string) { p.w("a, b = {\"only_one_long_key_name\": 1}") },
 }
 
